@@ -60,6 +60,20 @@ reg(
     "DESIGN.md 4.1 C06",
 )
 
+reg(
+    "C04",
+    "C04a: every bounded G_acc program over three real accelerators (snax_hwpe_mult: 6 fields, polling barrier + clear; snax_alu: 17 fields, two launch "
+    "registers; gemmini: RoCC pairs) goes through the real trace+dedup(+overlap) and convert-accfg-to-csr. The accfg-level IR yields the expected "
+    "access segments from the *declared* register map; the lowered IR runs on a CSR/RoCC machine where the environment chooses every barrier poll "
+    "answer (all sequences with <= 2 deviations, <= 3 busy polls; livelock = step horizon). Exactly one write per configured field to its declared "
+    "address, launches to declared launch registers with their values, awaits polling the declared barrier until done, order vs calls preserved, RoCC "
+    "pair registers equal to the configured values at every launch, no accfg value or op left. C04b: register maps of ~670 accelerator x streamer "
+    "configurations are injective, 12-bit, keep the reserved status registers free and list fields in declared order.",
+    "Trusted: machines/csr.py (meaning of the three inline-asm strings), machines/accm.py. PHS register maps are covered by C08/C20 (need a PE).",
+    "bounded-exhaustive program x input x environment-answer (poll) enumeration with deviation bounding; finite-domain exhaustion of register maps",
+    "DESIGN.md 4.1 C04",
+)
+
 NOT_APPLICABLE = []
 
 ALL = [f"C{i:02d}" for i in range(1, 21)]
